@@ -224,7 +224,7 @@ theorem val_entry (E : RegexEngine) (ic : Bool) (e : Expr) (f : Str) (misc : Opt
       · split at h <;> cases h <;> apply entry_wrapNot
         · exact (member_search _ _ _).entry
         · exact (member_cmp _ _ _ (hk rfl) rfl (by simp)).entry
-  | .tagged, x, _, _, h => by simp [parseVal] at h
+  | .tagged _, x, _, _, h => by simp [parseVal] at h
   | .str s, x, hk, _, h => by
     simp only [parseVal] at h
     split at h
